@@ -315,6 +315,7 @@ def oracle(chk):
     ]
     for kind, mk, _ in cases:
         owner, twin = mk(True), mk(False)
+        desc0 = "%s %s" % (type(owner).__name__, owner.args)
         view = helpers.attach_shared_memory(kind, owner.args, owner.shm.name)
         keys = _oracle.KEYS[:7]
         seq = [(rng.choice(["o", "v"]), rng.choice(keys), rng.choice([1, 2, 3])) for _ in range(10)]
@@ -363,6 +364,8 @@ def oracle(chk):
             try:
                 owner.save(fn)
                 own2 = (cm.load if kind == "cms" else type(owner).load)(fn, True)
+                if getattr(own2, "shm", None) is None:
+                    return {"key": desc0, "observed": "load(file, shared_memory=True) returned a sketch that owns no shared block", "expected": "a shared sketch", "how": "bounded oracle on the real classes (odd shapes)"}
                 v2 = helpers.attach_shared_memory(kind, own2.args, own2.shm.name)
                 s2, s3 = _oracle.state_of(own2), _oracle.state_of(v2)
                 for d in (s2, s3):
@@ -426,6 +429,11 @@ def loaded_shared(chk, ex, cls, found):
         ex.npz_members = sv[0][2]
         try:
             louts = _glue.call_method(ex, o.state.fork(), sref, "load", [fn, Const(True)])
+            if cls.startswith("CountMin"):
+                # the module-level loader hands shared_memory on to the class loader it dispatches to
+                st_m = o.state.fork()
+                n_m = len(st_m.effects)
+                louts = louts + [(mo, mo.state.effects[n_m:]) for mo in ex.call_function(ex.func("countmin", "load"), [fn, Const(True)], {}, st_m)]
         finally:
             ex.npz_members = None
         for lo, le in louts:
